@@ -78,12 +78,12 @@ func isBad(id int) bool { return id == 9 }
 // ---------------------------------------------------------------- histories
 
 type op struct {
-	K      string   `json:"k"`            // P C F S G K I X E
-	Dest   string   `json:"d,omitempty"`  // P: o d v t a p
-	Name   int      `json:"n"`            // id; F: -1 = fflush()
-	Pieces []string `json:"p,omitempty"`  // P: what writeOutput receives, in order
-	Form   string   `json:"f,omitempty"`  // P: "printf" (one piece) or "print" (args, OFS, ORS)
-	Code   int      `json:"c,omitempty"`  // X
+	K      string   `json:"k"`           // P C F S G K I X E
+	Dest   string   `json:"d,omitempty"` // P: o d v t a p
+	Name   int      `json:"n"`           // id; F: -1 = fflush()
+	Pieces []string `json:"p,omitempty"` // P: what writeOutput receives, in order
+	Form   string   `json:"f,omitempty"` // P: "printf" (one piece) or "print" (args, OFS, ORS)
+	Code   int      `json:"c,omitempty"` // X
 }
 
 type history struct {
@@ -270,7 +270,7 @@ func (f *failW) Write(p []byte) (int, error) {
 }
 
 type outcome struct {
-	Result string         // s:<status> | e | panic
+	Result string // s:<status> | e | panic
 	ErrMsg string
 	Out    []byte
 	Files  map[int][]byte
@@ -427,14 +427,14 @@ type refIn struct {
 	rest []byte
 }
 type refRun struct {
-	fs        map[int][]byte
-	outs      map[int]*refStream
-	ins       map[int]*refIn
-	stdout    []byte
-	ownMark   []bool // per stdout byte: written by the program itself
-	obs       []string
-	result    string
-	untimed   bool // history uses something whose outcome depends on timing: no oracle
+	fs      map[int][]byte
+	outs    map[int]*refStream
+	ins     map[int]*refIn
+	stdout  []byte
+	ownMark []bool // per stdout byte: written by the program itself
+	obs     []string
+	result  string
+	untimed bool // history uses something whose outcome depends on timing: no oracle
 }
 
 func (r *refRun) own(s string) {
